@@ -121,10 +121,13 @@ CLAIMED = {
             "all interleavings; real runs against scripted children with interposed, delayable parent system calls are "
             "validated (property checks + refinement of the logged system-call word)",
             "Model: 7 child programs x pipe capacities 1-3 x run_process/communicate, every interleaving, with "
-            "termination under fairness; three legacy variants (no drain, no closing, communicate without drain) must "
-            "fail. Implementation: 14 child programs x payloads {none,0,1,4096,65537,1 MiB} (thorough 11 sizes) x "
+            "termination under fairness, plus deadline configurations (SIGTERM -> SIGKILL escalation), the destructor's "
+            "protocol for a child that is still alive (abandoned object) and move assignment over a live first child; six "
+            "legacy variants (no drain, no closing, communicate without drain, no escalation, SIGTERM from the destructor, "
+            "no reaping on re-assignment) must fail. Implementation: 14 child programs x payloads {none,0,1,4096,65537,1 MiB} (thorough 11 sizes) x "
             "delay plans injected at the parent's waitpid/poll/read via link-time interposition, check on/off, "
-            "timeouts, repeated calls, each under a watchdog; TLC computes the expected output volumes and status from "
+            "timeouts, repeated calls, objects destroyed / re-assigned / reused with live or finished children, each under "
+            "a watchdog; TLC computes the expected output volumes and status from "
             "the child's program and decides every run; the parent's system-call sequence must be a word of the "
             "modelled loop (else MODEL-DRIFT).",
             "Trusted: TLC; the harness's comparison of large outputs with the stream pattern; SIGPIPE ignored by the "
